@@ -130,7 +130,7 @@ func genC15(t *rapid.T) interface{} {
 			lastSet = op.I
 			if rapid.Bool().Draw(t, "above") && len(sets[op.I]) > 0 && sets[op.I][len(sets[op.I])-1] < 8 {
 				op.V = rapid.IntRange(sets[op.I][len(sets[op.I])-1]+1, 8).Draw(t, "vabove")
-			} else if si := sets[op.I]; len(si) >= 2 && si[len(si)-1]-si[0] >= 2 && rapid.IntRange(0, 2).Draw(t, "inside") == 0 {
+			} else if si := sets[op.I]; len(si) >= 2 && si[len(si)-1]-si[0] >= 2 && rapid.IntRange(0, 1).Draw(t, "inside") == 0 {
 				// strictly between the smallest and the largest element: siblings made this way have the
 				// same length and the same ends and differ somewhere in the middle
 				op.V = rapid.IntRange(si[0]+1, si[len(si)-1]-1).Draw(t, "vinside")
@@ -150,7 +150,7 @@ func genC15(t *rapid.T) interface{} {
 					op.J = above[rapid.IntRange(0, len(above)-1).Draw(t, "jabove")]
 				}
 			}
-			if rapid.IntRange(0, 3).Draw(t, "lookalike") == 0 && len(sets[op.I]) > 0 {
+			if rapid.IntRange(0, 1).Draw(t, "lookalike") == 0 && len(sets[op.I]) > 0 {
 				// a different set of the same length with the same smallest and largest element
 				si := sets[op.I]
 				var like []int
